@@ -208,4 +208,26 @@ Proof.
       rewrite He2. apply int32_id. lia.
 Qed.
 
+(* far JMP seg:off (ptr16:32): pass 1 reserves 8 bytes in 16-bit mode (66 EA id iw) and 7 in 32-bit mode - what codegen emits *)
+Lemma sized_farjmp s op r dt l r0 sv ov :
+  eval_top (env_of s) op = Ev (ESeg dt l (Some r0)) r ->
+  far_dt_ok dt = true -> seg_num l = Some sv -> seg_num r0 = Some ov ->
+  -32768 <= sv <= 32767 -> - 2 ^ 31 <= ov < 2 ^ 31 ->
+  - 2 ^ 31 <= loc s -> loc s + 8 < 2 ^ 31 ->
+  sized E m st dol s (do_jcc s "JMP" [op]).
+Proof.
+  intros He Hdt Hsv Hov Hrs Hro Hlo Hhi. unfold do_jcc. rewrite He, Hdt, Hsv, Hov.
+  cbn [String.eqb Ascii.eqb Bool.eqb].
+  apply (SzPush E m st dol _ _ (OJmpFar (bmode s) sv ov) ((match bmode s with M16 => [102] | M32 => [] end) ++ 234 :: le 4 ov ++ le 2 sv)).
+  - reflexivity.
+  - unfold emitted. cbn [gen_ocode]. unfold in_range.
+    replace (-32768 <=? sv) with true by (symmetry; apply Z.leb_le; lia).
+    replace (sv <=? 32767) with true by (symmetry; apply Z.leb_le; lia).
+    replace (-2147483648 <=? ov) with true by (symmetry; apply Z.leb_le; lia).
+    replace (ov <=? 2147483647) with true by (symmetry; apply Z.leb_le; lia).
+    reflexivity.
+  - cbn [push_ocode add_loc set_loc loc]. rewrite zlen_app. unfold zlen at 2. cbn [Datatypes.length]. rewrite app_length, !le_length.
+    destruct (bmode s); unfold zlen; cbn [Datatypes.length]; rewrite int32_id by lia; lia.
+Qed.
+
 End Instances.
